@@ -162,3 +162,69 @@ def satisfiable(cons, fixed, unknown, p, hint=None, limit=400000):
         if not found:
             return False
     return True
+
+
+def forge(cons, honest, locked, results, p, max_candidates=800, max_steps=60):
+    """Forgery search for LARGE fields and widths, where the witness space cannot be enumerated: starting from the honest
+    assignment `honest` (wire -> value, all constraints hold), change ONE free wire (a 0/1 wire is flipped, any other is
+    incremented) and repair the rest by single-unknown solving: every constraint the change violates is solved for a wire
+    that has not been touched yet, is not `locked` (operands, public wires, the constant) and occurs linearly in it; this
+    may violate further constraints, which are repaired the same way.  A repaired assignment satisfies EVERY constraint (it
+    is re-checked in full); it is a forgery if one of the `results` (list of LC dicts) evaluates to another value than on
+    the honest assignment.  Returns (changed wire, {wire: new value for every wire that differs}, new result values) or None.
+    Sound (a returned forgery is a genuine second witness), not complete."""
+    wires_of = [set(a) | set(b) | set(c) for (a, b, c) in cons]
+    occ = {}
+    for i, ws in enumerate(wires_of):
+        for w in ws:
+            occ.setdefault(w, []).append(i)
+    want = [ev(r, honest, p) for r in results]
+
+    def holds(i, asg):
+        a, b, c = cons[i]
+        return (ev(a, asg, p) * ev(b, asg, p) - ev(c, asg, p)) % p == 0
+
+    def order(w):
+        # most recently allocated private wire first
+        return -int(w[1:]) if w[0] == "w" else 0
+    free = [w for w in honest if w not in locked and w != "1" and w[0] == "w"]
+    if len(free) > max_candidates:
+        step = len(free) / max_candidates
+        free = [free[int(k * step)] for k in range(max_candidates)]
+    for u in free:
+        asg = dict(honest)
+        asg[u] = (1 - asg[u]) % p if asg[u] in (0, 1) else (asg[u] + 1) % p
+        touched = {u}
+        bad = [i for i in occ.get(u, []) if not holds(i, asg)]
+        ok = True
+        steps = 0
+        while bad:
+            steps += 1
+            if steps > max_steps:
+                ok = False; break
+            i = bad[0]
+            a, b, c = cons[i]
+            fixed_one = False
+            for k in sorted((w for w in wires_of[i] if w not in touched and w not in locked and w != "1"), key=order):
+                if (a.get(k, 0) * b.get(k, 0)) % p != 0:
+                    continue                    # quadratic in k
+                old = asg[k]
+                asg[k] = 0; f0 = (ev(a, asg, p) * ev(b, asg, p) - ev(c, asg, p)) % p
+                asg[k] = 1; f1 = (ev(a, asg, p) * ev(b, asg, p) - ev(c, asg, p)) % p
+                kk = (f1 - f0) % p
+                if kk == 0:
+                    asg[k] = old
+                    continue
+                asg[k] = (-f0 * pow(kk, p - 2, p)) % p
+                touched.add(k)
+                fixed_one = True
+                bad = [j for j in dict.fromkeys(bad + occ.get(k, [])) if not holds(j, asg)]
+                break
+            if not fixed_one:
+                ok = False; break
+        if not ok:
+            continue
+        got = [ev(r, asg, p) for r in results]
+        if got != want and all(holds(i, asg) for i in range(len(cons))):
+            return u, {w: asg[w] for w in touched if asg[w] != honest[w]}, got
+    return None
